@@ -165,8 +165,9 @@ impl<A, C: Clock, F: Filter, R: Rng, S: PtpInstanceStateMutex> Port<'_, InBmca, 
 
         match recommended_state {
             RecommendedState::M1(defaultds) | RecommendedState::M2(defaultds) => {
-                // a slave-only PTP port should never end up in the master state
-                debug_assert!(!default_ds.slave_only);
+                // Note: decision codes M1/M2 also occur on a slave-only instance (when its own
+                // data set is better than every qualified foreign master); the port then goes to
+                // LISTENING instead of MASTER, see set_recommended_port_state.
 
                 current_ds.steps_removed = 0;
 
